@@ -16,11 +16,23 @@ from pbmon.gen import pop
 PROPERTY = "C08"
 NSHARDS = {"quick": 6, "thorough": 16}
 CLAUSES = {"C08.reseed": 400, "C08.process": 40, "C08.explicit.depends": 150, "C08.explicit.global": 150}
-HOOKS_REQUIRED = ["explicit-generator call preceded by a larger call of the same component"]
+HOOKS_REQUIRED = ["explicit-generator call preceded by a larger call of the same component",
+                  "explicit-generator call with a cached normal deviate pending in the global NumPy stream",
+                  "explicit-generator call with a cached normal deviate pending in the global Python stream",
+                  "optimiser with explicit generator, cached normal deviate pending in the global NumPy stream",
+                  "optimiser with explicit generator, no cached normal deviate in the global NumPy stream",
+                  "program re-executed after re-seeding on the same kept option arrays / configuration objects",
+                  "... of which sampled without replacement for exactly one complete set of the options"]
 RULE = ("programs = sequences of 3-15 stochastic API calls (7 mating protocols with scalar and per-cross count arrays, G_E phenotyping "
-        "with scalar and per-environment designs, 5 cross-configuration samplers, 4 sampling utilities, the six dense_*/mat_* meiosis "
+        "with scalar and per-environment designs, 5 cross-configuration samplers (fresh objects; objects built once and sampled repeatedly; new objects "
+        "from a kept selection vector; draws = one / two complete sets of the options, sets and a remainder, fewer than one set), 4 sampling utilities "
+        "(fresh and kept option / weight arrays of several dtypes, with and without replacement, tuple and scalar sizes), raw global normal draws "
+        "(odd numbers: cached deviates pending in both global streams), the six dense_*/mat_* meiosis "
         "helpers, prng.spawn, hill-climber and GA optimisers, coancestry jitter, expected-maximum-BV matrix with scalar and per-taxon "
-        "counts) on a generated population; explicit-generator runs hand the same generator to two consecutive calls and compare "
+        "counts) on a generated population whose cross maps, count arrays, option arrays and configuration objects are caller-owned and the same "
+        "objects at every call; explicit-generator runs (every component that accepts rng, every optimiser class) are preceded by an odd number of "
+        "global normal draws in one run and an even number in the other (numpy and random.gauss independently), "
+        "hand the same generator to two consecutive calls and compare "
         "both outputs and the generator's continuation, the second run after a larger call of the same component with another generator; "
         "population; executed twice in one process after seed(s) with different prefixes (raw random/numpy draws, other programs), in two "
         "fresh interpreters with different PYTHONHASHSEED, and per component with equal-state explicit generators under differently "
@@ -29,7 +41,12 @@ RULE = ("programs = sequences of 3-15 stochastic API calls (7 mating protocols w
 ASSUME = ["outputs are compared through pickled arrays/frames/labels (bit-level)",
           "objects built (and shallow-copied; deep-copied where the class defines __deepcopy__) BEFORE seeding belong to 'whatever was executed "
           "before the re-seeding'; a default copy.deepcopy of a protocol clones its generator and is not asserted to follow later seeds",
-          "an entropy tap on numpy.random.default_rng / os.urandom only *explains* divergences; output equality decides"]
+          "an entropy tap on numpy.random.default_rng / os.urandom only *explains* divergences; output equality decides",
+          "digests of the caller-owned input arrays taken before and after each call only *explain* divergences (which call left an input modified); "
+          "a modified input is judged through the later calls that use the same array / object again (third execution on the same objects, "
+          "equal-state generator on the same inputs)",
+          "'global streams left exactly as they were' is the whole state: Mersenne words, position AND the pending cached normal deviate "
+          "(numpy has_gauss/cached_gaussian, random.gauss's gauss_next)"]
 VERIF = os.path.dirname(os.path.dirname(os.path.dirname(os.path.abspath(__file__))))
 
 MATE = ["SelfCross", "TwoWayCross", "TwoWayDHCross", "ThreeWayCross", "ThreeWayDHCross", "FourWayCross", "FourWayDHCross"]
@@ -47,6 +64,26 @@ GAS = ["SubsetGeneticAlgorithm", "RealGeneticAlgorithm", "IntegerGeneticAlgorith
 # boundary sizes of the subset problem handed to the subset GAs (subset = whole candidate set, one member, all but one)
 GAS += [g_ + "/" + z for g_ in ("SubsetGeneticAlgorithm", "NSGA2SubsetGeneticAlgorithm", "NSGA3SubsetGeneticAlgorithm") for z in ("every candidate selected", "single member", "all but one")]
 
+# Caller-owned inputs that OUTLIVE the call: option / selection / weight arrays and selection-configuration objects that a World builds
+# once and every later call (of the same execution, of the next execution on the same objects, of an equal-state generator) uses again.
+# name -> (kind, class or function, size class, (ncross, nparent, number of options))
+ONE, TWO, REM, FEW = ("exactly one complete set of the options", "two complete sets of the options", "complete sets and a remainder",
+                      "fewer draws than options")
+KEPT = {}
+for _c, _sz in (("SubsetSelectionConfiguration", {ONE: (4, 2, 8), TWO: (4, 2, 4), REM: (4, 2, 5), FEW: (3, 2, 8)}),
+                ("SubsetMateSelectionConfiguration", {ONE: (4, 2, 4), TWO: (4, 2, 2), REM: (4, 2, 3), FEW: (3, 2, 5)}),
+                ("BinarySelectionConfiguration", {ONE: (4, 2, 8), REM: (4, 2, 5)}),
+                ("IntegerSelectionConfiguration", {ONE: (4, 2, 8), REM: (4, 2, 5)}),
+                ("RealSelectionConfiguration", {"selection weights": (4, 2, 8)})):
+    for _z, _d in _sz.items():
+        KEPT["%s@object built once, sampled repeatedly/%s" % (_c, _z)] = ("object", _c, _z, _d)
+for _c in ("SubsetSelectionConfiguration", "SubsetMateSelectionConfiguration"):
+    KEPT["%s@new object from a kept selection vector/%s" % (_c, ONE)] = ("vector", _c, ONE, KEPT["%s@object built once, sampled repeatedly/%s" % (_c, ONE)][3])
+for _z, _d in ((ONE, ((4, 3), False)), (ONE + ", scalar size", (12, False)), (TWO, ((8, 3), False)), (REM, ((5, 3), False)), (FEW, ((2, 3), False)),
+               ("with replacement, weighted", ((5, 3), True))):
+    KEPT["tiled_choice@kept option array/" + _z] = ("tiled_choice", "tiled_choice", _z, _d)
+KEPT["sus@kept option and weight arrays"] = ("sus", "sus", "kept option and weight arrays", None)
+RAW = "raw global draws/odd number of normal deviates"
 
 
 def dig(x):
@@ -97,6 +134,57 @@ class World:
         self.shared_problem = self.problem("Subset", 1, self.shared_record)     # one problem object used by several runs
         o = G_E_Phenotyping(self.mod, 2, 2, 1.0, 0.5, 1.0)
         self.prebuilt["G_E_Phenotyping"] = {"orig": o, "copy": _copy.copy(o), "deepcopy": _copy.deepcopy(o)}
+        # caller-owned arrays handed to the calls (cross maps, per-cross / per-taxon counts): the same array objects for every call
+        self.wseed = wseed
+        self.arr = {"xc%d" % k: numpy.array([[(i + c) % 8 for i in range(k)] for c in range(2)]) for k in (1, 2, 3, 4)}
+        self.arr.update({"nmating": numpy.array([1, 2]), "nprogeny": numpy.array([3, 1]), "embv nprogeny": numpy.array([3, 1, 2, 4, 2, 1, 3, 2]),
+                         "embv nrep": numpy.array([2, 5, 3, 1, 2, 4, 1, 3]), "helper sel": numpy.arange(5) % 8})
+        self.kept = {}
+
+    def keep(self, name):
+        """The long-lived inputs of a KEPT component: built on first use from (wseed, name) with a private generator (the global
+        streams are not touched), afterwards always the same objects."""
+        if name in self.kept:
+            return self.kept[name]
+        kind, cn, zcls, d = KEPT[name]
+        g = numpy.random.Generator(numpy.random.PCG64([self.wseed, sorted(KEPT).index(name)]))
+        dt = ["int64", "int32", "int16", "uint8"][int(g.integers(4))]
+        if kind == "tiled_choice":
+            k = {"a": (100 + g.permutation(40)[:12]).astype(dt if g.random() < 0.7 else "float64")}
+            if d[1]:
+                k["p"] = g.dirichlet(numpy.ones(12))
+        elif kind == "sus":
+            k = {"a": g.permutation(6).astype(dt), "p": g.uniform(0.1, 1.0, 6)}
+        else:
+            ncross, nparent, nopt = d
+            cls = getattr(importlib.import_module("pybrops.breed.prot.sel.cfg." + cn), cn)
+            if cn == "SubsetSelectionConfiguration":
+                k = {"decn": g.permutation(8)[:nopt].astype(dt)}
+            elif cn == "SubsetMateSelectionConfiguration":
+                k = {"decn": g.permutation(6)[:nopt].astype(dt), "xmap": numpy.array([[0, 1], [2, 3], [4, 5], [6, 7], [1, 2], [3, 4]])}
+            elif cn == "BinarySelectionConfiguration":
+                v = numpy.zeros(8, dtype=dt); v[g.permutation(8)[:nopt]] = 1; k = {"decn": v}
+            elif cn == "IntegerSelectionConfiguration":
+                k = {"decn": g.multinomial(nopt, numpy.ones(8) / 8).astype(dt)}
+            else:
+                k = {"decn": g.dirichlet(numpy.ones(8))}
+            k["args"] = (cls, ncross, nparent)
+            if kind == "object":
+                priv = numpy.random.Generator(numpy.random.PCG64(self.wseed + 11))
+                k["obj"] = cls(ncross, nparent, 1, 1, self.pg, k["decn"], *([k["xmap"]] if "xmap" in k else []), priv)
+        self.kept[name] = k
+        return k
+
+    def owned(self):
+        """digest of every caller-owned input array (explains a divergence: which call left an input modified)"""
+        d = {"pg.mat": self.pg.mat, "pg.vrnt_xoprob": self.pg.vrnt_xoprob, "pgbig.mat": self.pgbig.mat, "ebv": self.ebv, "sus weights": self.w,
+             "model u_a": self.mod.u_a, "model beta": self.mod.beta, "shared problem decn_space": self.shared_problem.decn_space}
+        d.update(self.arr)
+        for n_, k in self.kept.items():
+            for f_ in ("a", "p", "decn", "xmap"):
+                if f_ in k:
+                    d[n_ + ": " + {"a": "option array", "p": "weight array", "decn": "selection vector", "xmap": "cross map"}[f_]] = k[f_]
+        return {n_: hashlib.sha1(numpy.ascontiguousarray(v).tobytes()).hexdigest()[:10] for n_, v in d.items() if isinstance(v, numpy.ndarray)}
 
     def problem(self, enc, nobj, record, ndecn=3):
         P = importlib.import_module("pybrops.breed.prot.sel.prob.EstimatedBreedingValueSelectionProblem")
@@ -132,6 +220,25 @@ def enc_of(name):
 def component(name, big=False):
     """callable(world, rng) -> output; rng None = library global generator.  ``big``: the same component with a larger request
     (more progeny / gametes / draws) - used for the calls that make up the interpreter history before a judged call."""
+    if name in KEPT:
+        def f(w, rng, _n=name):
+            kind, cn, zcls, d = KEPT[_n]
+            k = w.keep(_n)
+            if kind == "tiled_choice":
+                return _samp().tiled_choice(k["a"], d[0], d[1], k.get("p"), rng)
+            if kind == "sus":
+                return _samp().stochastic_universal_sampling(k["a"], k["p"], 9, rng)
+            if kind == "vector":      # a new configuration object from the caller's (kept) selection vector
+                cls, ncross, nparent = k["args"]
+                return cls(ncross, nparent, 1, 1, w.pg, k["decn"], *([k["xmap"]] if "xmap" in k else []), rng).sample_xconfig(True)
+            k["obj"].rng = rng        # None -> the library's global generator
+            return k["obj"].sample_xconfig(True)
+        return f
+    if name == RAW:
+        def f(w, rng):
+            import pybrops.core.random.prng as prng
+            return [float(numpy.random.standard_normal()), random.gauss(0.0, 1.0), prng.normal(0.0, 1.0, 2).tolist()]
+        return f
     if "@" in name and not name.startswith("SteepestDescent"):
         base, variant = name.split("@")
 
@@ -146,9 +253,11 @@ def component(name, big=False):
         def f(w, rng, _n=name.split("/")[0], _arr=name.endswith("/per-cross counts")):
             cls = getattr(importlib.import_module("pybrops.breed.prot.mate." + _n), _n)
             P = cls(rng=rng)
-            xc = numpy.array([[(i + c) % 8 for i in range(P.nparent)] for c in range(2)])
-            if _arr:      # per-cross count arrays, unequal entries
-                return P.mate(w.pg, xc, numpy.array([1, 3 if big else 2]), numpy.array([7 if big else 3, 1]), nself=1)
+            xc = w.arr["xc%d" % P.nparent]       # caller-owned cross map / count arrays: the same array objects at every call
+            if _arr and not big:      # per-cross count arrays, unequal entries
+                return P.mate(w.pg, xc, w.arr["nmating"], w.arr["nprogeny"], nself=1)
+            if _arr:
+                return P.mate(w.pg, xc, numpy.array([1, 3]), numpy.array([7, 1]), nself=1)
             return P.mate(w.pg, xc, 2, 9 if big else 2, nself=1)
         return f
     if name in HELPERS:
@@ -157,7 +266,7 @@ def component(name, big=False):
             F = getattr(importlib.import_module(HELPERS[_n][0]), HELPERS[_n][1])
             r_ = prng.global_prng if rng is None else rng
             geno = w.pg.mat; xo = w.pg.vrnt_xoprob
-            sel = numpy.arange(37 if big else 5) % 8
+            sel = numpy.arange(37) % 8 if big else w.arr["helper sel"]
             if HELPERS[_n][1] in ("dense_cross", "mat_mate"):
                 return F(geno, geno, sel, (sel + 3) % 8, xo, r_)
             return F(geno, sel, xo, r_)
@@ -240,7 +349,7 @@ def component(name, big=False):
     if name == "EMBV/per-taxon counts":
         def f(w, rng):
             from pybrops.model.embvmat.DenseExpectedMaximumBreedingValueMatrix import DenseExpectedMaximumBreedingValueMatrix as E
-            return E.from_gmod(w.mod, w.pg, numpy.array([3, 1, 2, 4, 2, 1, 3, 2]), numpy.array([2, 5, 3, 1, 2, 4, 1, 3]))
+            return E.from_gmod(w.mod, w.pg, w.arr["embv nprogeny"], w.arr["embv nrep"])
         return f
     if name == "G_E_Phenotyping/error-free trait, larger population":
         def f(w, rng):
@@ -262,17 +371,19 @@ def _samp():
 
 VARIANTS = [m + "/per-cross counts" for m in MATE] + ["G_E_Phenotyping/per-environment replicates", "G_E_Phenotyping/error-free trait, larger population"]
 ACCEPT_RNG = MATE + ["G_E_Phenotyping"] + CFGS + ["sus", "tiled_choice", "axis_shuffle", "outcross_shuffle", "SteepestDescentSubsetHillClimber"] + GAS + \
-    list(HELPERS) + VARIANTS
+    list(HELPERS) + VARIANTS + list(KEPT)
 # copy.deepcopy is only driven for classes that declare their own __deepcopy__ (G_E_Phenotyping shares its generator with the copy);
 # a default deep copy of a mating protocol clones the generator object, and whether such a clone must follow later re-seeding
 # is not something the property states (counted in ASSUME, not asserted)
 PREBUILT = [m + "@" + v for m in ("TwoWayCross", "FourWayDHCross", "SelfCross") for v in ("orig", "copy")] + \
            ["G_E_Phenotyping@" + v for v in ("orig", "copy", "deepcopy", "deepcopy")]
-GLOBAL_ONLY = ["spawn", "apply_jitter", "EMBV", "EMBV/per-taxon counts", "EMBV/per-taxon counts"] + PREBUILT + ["SteepestDescentSubsetHillClimber@shared-problem"] * 3
+GLOBAL_ONLY = [RAW, "spawn", "apply_jitter", "EMBV", "EMBV/per-taxon counts", "EMBV/per-taxon counts"] + PREBUILT + ["SteepestDescentSubsetHillClimber@shared-problem"] * 3
 ALL = ACCEPT_RNG + GLOBAL_ONLY
 
 
 def site_of(name):
+    if name in KEPT:
+        return KEPT[name][1] + (".sample_xconfig" if KEPT[name][0] in ("object", "vector") else "")
     if name.startswith("SteepestDescent") and "@" in name:
         return "SteepestDescentSubsetHillClimber.minimize on a problem object shared between runs"
     if "@" in name:
@@ -320,7 +431,7 @@ class Tap:
 
 def gen_program(g):
     n = int(g.integers(3, 16))
-    weights = numpy.array([3.0 if c in MATE else (0.6 if c in GAS else (1.0 if c in HELPERS or c in VARIANTS else 2.0)) for c in ALL]); weights /= weights.sum()
+    weights = numpy.array([3.0 if c in MATE else (0.6 if c in GAS else (1.0 if c in HELPERS or c in VARIANTS or c in KEPT else 2.0)) for c in ALL]); weights /= weights.sum()
     return [str(x) for x in g.choice(ALL, n, p=weights)]
 
 
@@ -356,7 +467,9 @@ def run_program(prog, wseed, seed, prefix, world=None, keep=None):
     prng.seed(seed)
     out = []
     taps = []
+    mods = []       # per call: caller-owned input arrays the call left modified (explanatory)
     for name in prog:
+        own0 = w.owned()
         try:
             with Tap() as t:
                 r = component(name)(w, None)
@@ -365,7 +478,9 @@ def run_program(prog, wseed, seed, prefix, world=None, keep=None):
             out.append(dig(r) + "/" + hashlib.sha1(pickle.dumps(gstate())).hexdigest()[:10]); taps.append(t.n)
         except Exception as e:
             out.append("EXC:" + type(e).__name__); taps.append(0)
-    return out, taps
+        own1 = w.owned()
+        mods.append(sorted(k for k in own0 if own1.get(k) != own0[k]))
+    return out, taps, mods
 
 
 def case_reseed(ctx, c):
@@ -374,21 +489,29 @@ def case_reseed(ctx, c):
     seed = int(g.choice([0, 2 ** 32 - 1, int(g.integers(0, 2 ** 32)), int(g.integers(0, 1000))]))
     wseed = int(g.integers(2 ** 31))
     ctx.case("program", seed, tuple(prog))
+    ctx.hook("program re-executed after re-seeding on the same kept option arrays / configuration objects", sum(p in KEPT for p in prog))
+    ctx.hook("... of which sampled without replacement for exactly one complete set of the options", sum(p in KEPT and KEPT[p][2].startswith(ONE) for p in prog))
     if c % 23 == 0:
         ctx.sample({"seed": seed, "program": prog})
-    a, ta = run_program(prog, wseed, seed, 2 * int(g.integers(1000)))
+    a, ta, ma = run_program(prog, wseed, seed, 2 * int(g.integers(1000)))
     kept = []
-    b, tb = run_program(prog, wseed, seed, 2 * int(g.integers(1000)) + 1, keep=kept)
+    b, tb, mb = run_program(prog, wseed, seed, 2 * int(g.integers(1000)) + 1, keep=kept)
     coords = [c, "reseed"]
-    _compare(ctx, prog, seed, a, ta, b, tb, coords, "global generator")
-    # third execution on the SAME long-lived objects as the second one
-    c3, t3 = run_program(prog, wseed, seed, 2 * int(g.integers(1000)), world=kept[0])
-    _compare(ctx, prog, seed, b, tb, c3, t3, coords, "global generator, same objects re-used after re-seeding")
+    _compare(ctx, prog, seed, a, ta, b, tb, coords, "global generator", ma)
+    # third execution on the SAME long-lived objects (populations, protocol / configuration objects, option and count arrays) as the second
+    c3, t3, m3 = run_program(prog, wseed, seed, 2 * int(g.integers(1000)), world=kept[0])
+    _compare(ctx, prog, seed, b, tb, c3, t3, coords, "global generator, same objects re-used after re-seeding", mb)
 
 
-def _compare(ctx, prog, seed, a, ta, b, tb, coords, icls):
+def _compare(ctx, prog, seed, a, ta, b, tb, coords, icls0, mods):
+    """``mods``: per call of the FIRST of the two executions, the caller-owned input arrays it left modified - a modified input does
+    not decide anything (output equality does), it names the call that made a later call see other inputs."""
     diverged = False
+    modified = sorted({"call %d (%s): %s" % (i, site_of(prog[i]), m) for i in range(len(prog)) for m in mods[i]})
+    if modified:
+        ctx.sumnote("executions in which a call left a caller-owned input array modified")
     for i, name in enumerate(prog):
+        icls = icls0 + ("/kept inputs, " + KEPT[name][2] if name in KEPT else "")
         if a[i].startswith("EXC") and b[i].startswith("EXC"):
             ctx.raised(site_of(name)); continue
         same = a[i] == b[i]
@@ -397,8 +520,10 @@ def _compare(ctx, prog, seed, a, ta, b, tb, coords, icls):
             continue
         part = "output" if a[i].split("/")[0] != b[i].split("/")[0] else "state the global streams are left in"
         ctx.check("C08.reseed", same, site_of(name), "identical output after identical re-seeding", icls,
-                  what="%s: %s differs between two runs after seed(%d) (fresh-entropy requests during the call: %d/%d)" % (site_of(name), part, seed, ta[i], tb[i]),
-                  witness={"seed": seed, "program": prog, "call": i, "digests": [a[i], b[i]], "entropy_requests": [ta[i], tb[i]]}, coords=coords)
+                  what="%s: %s differs between two runs after seed(%d) (fresh-entropy requests during the call: %d/%d%s)" % (
+                      site_of(name), part, seed, ta[i], tb[i], "; caller-owned inputs left modified by the earlier execution: " + "; ".join(modified[:3]) if modified else ""),
+                  witness={"seed": seed, "program": prog, "call": i, "digests": [a[i], b[i]], "entropy_requests": [ta[i], tb[i]], "inputs_modified": modified[:6]},
+                  coords=coords)
         if not same:
             diverged = True
 
@@ -438,6 +563,20 @@ def gstate():
     return (random.getstate(), s[0], s[1].tobytes(), s[2], s[3], s[4])
 
 
+def state_diff(s0, s1):
+    """which parts of the global state (as returned by gstate) differ"""
+    d = set()
+    if s0[0][:2] != s1[0][:2]:
+        d.add("python stream")
+    if s0[0][2] != s1[0][2]:
+        d.add("python cached normal deviate")
+    if s0[1:4] != s1[1:4]:
+        d.add("numpy stream")
+    if s0[4:] != s1[4:]:
+        d.add("numpy cached normal deviate")
+    return d
+
+
 def case_explicit(ctx, c):
     import pybrops.core.random.prng as prng
     g = ctx.rng("explicit", c)
@@ -453,10 +592,28 @@ def case_explicit(ctx, c):
             return crafted_generator("zero", k % 100000)
         return numpy.random.Generator(numpy.random.PCG64(k)) if kind == "Generator" else numpy.random.RandomState(k)
     ctx.case("explicit:" + name, name, k, kind)
+    kcls = "/kept inputs, " + KEPT[name][2] if name in KEPT else ""
     res = []
     untouched = []
+    changed = set()
+    modified = set()
+    v = c // len(ACCEPT_RNG)
     for run, gs in enumerate((int(g.integers(2 ** 31)), int(g.integers(2 ** 31)))):
         prng.seed(gs)
+        # global normal draws between the seeding and the judged call: one of the two runs of a case leaves a cached second deviate
+        # pending in the NumPy stream (odd number of draws), the other none (even number, possibly zero); likewise - independently -
+        # for random.gauss; the whole state tuple including the cached deviates is compared before / after the call
+        nn = 2 * int(g.integers(0, 3)) + ((v + run) & 1)
+        mm = 2 * int(g.integers(0, 2)) + (((v >> 1) + run) & 1)
+        for i in range(nn):
+            numpy.random.standard_normal() if i % 2 == 0 else prng.normal()
+        for i in range(mm):
+            random.gauss(0.0, 1.0)
+        ctx.hook("explicit-generator call with a cached normal deviate pending in the global NumPy stream", int(numpy.random.get_state()[3] == 1))
+        ctx.hook("explicit-generator call with a cached normal deviate pending in the global Python stream", int(random.getstate()[2] is not None))
+        if name in GAS or name.startswith("SteepestDescent"):
+            ctx.hook("optimiser with explicit generator, cached normal deviate pending in the global NumPy stream", int(numpy.random.get_state()[3] == 1))
+            ctx.hook("optimiser with explicit generator, no cached normal deviate in the global NumPy stream", int(numpy.random.get_state()[3] == 0))
         w = World(wseed)
         # interpreter history before the judged calls: the two runs differ in the global seed AND in what the same component was
         # asked to do earlier with other generators (nothing / a larger request on another population)
@@ -466,13 +623,18 @@ def case_explicit(ctx, c):
                 ctx.hook("explicit-generator call preceded by a larger call of the same component")
             except Exception:
                 pass
+        if name in KEPT:
+            w.keep(name)
+        own0 = w.owned()
         s0 = gstate()
         try:
             rng_ = mk()
-            r = component(name)(w, rng_)
-            u1 = gstate() == s0
-            # the same generator handed on to a second call: what the first call left in it is part of its result
-            r2 = component(name)(w, rng_) if name not in GAS else None
+            r = dig(component(name)(w, rng_))        # digested at once: a result that aliases caller-owned memory is judged as returned
+            s1 = gstate()
+            u1 = s1 == s0
+            changed |= state_diff(s0, s1)
+            # the same generator handed on to a second call (on the same caller-owned inputs): what the first call left in it is part of its result
+            r2 = dig(component(name)(w, rng_)) if name not in GAS else None
             tail = rng_.random(3).tolist()
             # the SAME generator object put back into the state it had before the first call (as a caller who saved
             # bit_generator.state / get_state() would do): the call must give the first result again - anything the generator
@@ -480,28 +642,35 @@ def case_explicit(ctx, c):
             if run == 0 and not kind.endswith("zero"):
                 g2 = mk()
                 st0 = g2.bit_generator.state if hasattr(g2, "bit_generator") else g2.get_state()
-                ra = component(name)(w, g2)
+                ra = dig(component(name)(w, g2))
                 if hasattr(g2, "bit_generator"):
                     g2.bit_generator.state = st0
                 else:
                     g2.set_state(st0)
-                rb = component(name)(w, g2)
-                ctx.check("C08.explicit.depends", dig(ra) == dig(rb), site_of(name), "result depends only on the supplied generator's stream state",
-                          (kind if name not in GAS else "explicit generator") + "/generator object reset to a saved state",
-                          what="%s: same generator object reset to its saved state -> different output" % site_of(name),
-                          witness={"component": name, "rng": kind, "state": k}, coords=[c, "explicit"])
+                rb = dig(component(name)(w, g2))
+                own1 = w.owned()
+                modified |= {k_ for k_ in own0 if own1.get(k_) != own0[k_]}
+                ctx.check("C08.explicit.depends", ra == rb, site_of(name), "result depends only on the supplied generator's stream state",
+                          (kind if name not in GAS else "explicit generator") + "/generator object reset to a saved state" + kcls,
+                          what="%s: same generator object reset to its saved state, same caller-owned inputs -> different output%s" % (
+                              site_of(name), "; inputs left modified by the earlier calls: " + ", ".join(sorted(modified)[:3]) if modified else ""),
+                          witness={"component": name, "rng": kind, "state": k, "inputs_modified": sorted(modified)[:6]}, coords=[c, "explicit"])
         except Exception as e:
             ctx.raised(site_of(name) + " (explicit rng)", e); return
-        untouched.append(u1 and gstate() == s0)
+        s2 = gstate()
+        changed |= state_diff(s0, s2)
+        untouched.append(u1 and s2 == s0)
         res.append(dig((r, r2, tail)))
     site = site_of(name)
     gacls = "explicit generator" + ("/subset size at a boundary of the candidate set" if "/" in name else "") + ("/next output word zero" if kind.endswith("zero") else "")
-    ctx.check("C08.explicit.depends", res[0] == res[1], site, "result depends only on the supplied generator", kind if name not in GAS else gacls,
+    ctx.check("C08.explicit.depends", res[0] == res[1], site, "result depends only on the supplied generator", (kind if name not in GAS else gacls) + kcls,
               what="%s: same explicit generator state, different global seeds -> different outputs" % site,
               witness={"component": name, "rng": kind, "state": k, "digests": res}, coords=[c, "explicit"])
-    ctx.check("C08.explicit.global", all(untouched), site, "global Python and NumPy streams untouched", kind if name not in GAS else gacls,
-              what="%s: global random/numpy.random state changed although an explicit generator was supplied" % site,
-              witness={"component": name, "rng": kind}, coords=[c, "explicit"])
+    # only the pending second deviate of a global stream lost / replaced (the stream words and position are as before): its own input class
+    ccls = "/only the cached normal deviate of the global stream changed" if changed and all("cached" in x for x in changed) else ""
+    ctx.check("C08.explicit.global", all(untouched), site, "global Python and NumPy streams untouched", (kind if name not in GAS else gacls) + kcls + ccls,
+              what="%s: global random/numpy.random state changed although an explicit generator was supplied (changed: %s)" % (site, ", ".join(sorted(changed))),
+              witness={"component": name, "rng": kind, "changed": sorted(changed)}, coords=[c, "explicit"])
 
 
 def run_shard(ctx):
